@@ -1,6 +1,7 @@
 """Query cases: one JSON description rendered (a) as Gallina text and (b) as live EQL objects.
 
-value  ::= int | true/false | null | "str" | [atom, ...] (a tuple) | {"o": heap index}
+value  ::= int | true/false | null | "str" | [atom, ...] (a tuple) | {"o": heap index};  an element of a tuple may itself be a
+           tuple of ints (one level of nesting: the field `groups`)
 term   ::= ["lit", value] | ["var", key] | ["map", ["f", field_index] | ["i", k], term] | ["flat", key, term]
 cond   ::= ["cmp", op, term, term] | ["in", item, container] | ["contains", container, item] | ["truth", term]
          | ["and", cond, cond, style] | ["or", cond, cond, style] | ["not", cond, style]
@@ -10,7 +11,7 @@ case   ::= {"heap": [object...], "doms": [[key, [heap index...]]...], "binders":
 object ::= list of field values in FIELD order
 """
 
-FIELDS = ['a', 'b', 's', 'items', 'n', 'f', 'pair', 'peer', 'big()']      # index = field id in the Coq heap
+FIELDS = ['a', 'b', 's', 'items', 'n', 'f', 'pair', 'peer', 'big()', 'groups']      # index = field id in the Coq heap
 OPS = ['==', '!=', '<', '<=', '>', '>=']
 COQ_OP = {'==': 'Eq', '!=': 'Ne', '<': 'Lt', '<=': 'Le', '>': 'Gt', '>=': 'Ge'}
 
@@ -27,6 +28,8 @@ def coq_atom(v):
         return f'AStr "{v}"'
     if isinstance(v, dict):
         return f"AObj {v['o']}"
+    if isinstance(v, list) and all(isinstance(x, int) and not isinstance(x, bool) for x in v):
+        return "ATup [" + "; ".join(f"({x})%Z" for x in v) + "]"
     raise ValueError(v)
 
 
@@ -120,6 +123,8 @@ def coq_qcase(case):
             return f"BVar {b[1]}"
         if b[0] == 'flat':
             return f"BFlat {b[1]} ({coq_term(b[2])})"
+        if b[0] == 'concatflat':
+            return f"BConcatFlat {b[1]} {b[2]} ({coq_term(b[3])})"
         return f"BConcat {b[1]} {b[2]} ({coq_term(b[3])})"
     bs = "[" + "; ".join(cb(b) for b in case['binders']) + "]"
     sel = "[" + "; ".join(coq_term(t) for t in case['sel']) + "]"
@@ -137,6 +142,8 @@ def show_atom(v, index_of):
         return 'N'
     if isinstance(v, str):
         return f's<{v}>'
+    if isinstance(v, (tuple, list)):
+        return '(' + ','.join(f'i{x}' for x in v) + ')'
     return f'o{index_of(v)}'
 
 
